@@ -487,6 +487,7 @@ func ruleTileAddressing(w *World, r *Run, h int64) {
 	}
 	fetchNames := fetchMethods(w)
 	e := w.engine(8, 2)
+	e.hof[cGroupGo] = 0          // tiles fetched by goroutines of an error group: each body is run in place
 	e.loopBound, e.maxRec = 2, 2 // same bounds in both tiers: two tiles per request, up to three digit groups (index < 10^9)
 	sums := e.Explore(fn)
 	r.Analysed(rt+" ∘ client", len(sums))
